@@ -50,6 +50,8 @@ class C07(Prop, ScriptGen):
         return mk('c07.eval', bytes(script).hex(), stack_arg(stack), mask, self.txtext[ti], idx, mut, tag=tag)
 
     def model_line(self, c):
+        if c['op'] == 'c07.seq':
+            return c.line
         return '\t'.join([c['op']] + list(c['args'][:5]))
 
     # ---- generators ------------------------------------------------------------------------------
@@ -151,6 +153,21 @@ class C07(Prop, ScriptGen):
             keys = b''.join(push(self.key(j % 3)[1]) for j in range(20))
             yield self.vf(b'', b'\x61' * n + b'\x00\x00' + keys + pushnum(20) + b'\xae', 0, tag='limit-opcount')
             yield self.vf(b'', b'\x61' * n + b'\x00\x51' + keys + pushnum(20) + b'\xaf', 0, tag='limit-opcount')
+        # SEQUENCE cases: histories of calls in one process, all 16 flag sets, known-finding shapes interleaved
+        for rep in range(3 if big else 1):
+            for (tag, steps) in self.seq_histories(rng, ALL_MASKS):
+                i += 1
+                if i % nshards != shard:
+                    continue
+                r = rng.random()          # at most one kind of known finding per history
+                if r < 0.25:
+                    steps = steps[:1] + [self.step('v', b'\x51', b'\x51', 4, 0, 0)] + steps[1:]
+                elif r < 0.5:
+                    steps = steps + [self.step('e', b'\xac', [b'\x00', self.key(0)[1]], 0, 0, -5)]
+                if r < 0.5:
+                    steps = [st_[:3] + [str(int(st_[3]) | (1 if int(st_[3]) & 4 else 0))] + st_[4:]
+                             if k != (1 if r < 0.25 else len(steps) - 1) else st_ for k, st_ in enumerate(steps)]
+                yield Case(op='c07.seq', args=[x for st_ in steps for x in st_], tag=tag)
         # (3) random byte strings
         for _ in range(26000 if big else 800):
             ti = rng.randrange(3)
@@ -224,6 +241,8 @@ class C07(Prop, ScriptGen):
 
     def impl(self, c):
         a = c['args']
+        if c['op'] == 'c07.seq':
+            return self.run_history(a, observe=self.observe)
         mut = a[5] == '1'
         txo = txfmt.to_tx(txfmt.parse_tx(a[3]), mutable=mut)
         mask, idx = int(a[2]), int(a[4])
@@ -248,11 +267,17 @@ class C07(Prop, ScriptGen):
         raise ValueError(c['op'])
 
     def agree(self, c, io, mo):
-        if ' ~ ' not in mo:
+        ios, mos = io.split(' ;; '), mo.split(' ;; ')
+        if len(ios) != len(mos):
             return False
-        m, r = mo.split(' ~ ')
-        contained = io.startswith('ok') or io == 'err:validation'
-        return io == m and contained and (r == '-' or r == m)
+        for i1, m1 in zip(ios, mos):
+            if ' ~ ' not in m1:
+                return False
+            m, r = m1.split(' ~ ')
+            contained = i1.startswith('ok') or i1 == 'err:validation'
+            if not (i1 == m and contained and (r == '-' or r == m)):
+                return False
+        return True
 
     def nontrivial(self, c, io):
         return c['args'][0] != '' or c['args'][1] not in ('', '-')
@@ -260,6 +285,12 @@ class C07(Prop, ScriptGen):
     def shrink_candidates(self, c):
         a = list(c['args'])
         tag = c.get('tag', '')
+        if c['op'] == 'c07.seq':
+            n = len(a) // 7
+            for k in range(n):
+                if n > 1:
+                    yield Case(op=c['op'], args=a[:7 * k] + a[7 * (k + 1):], tag=tag)
+            return
         for k in (0, 1):
             if c['op'] == 'c07.eval' and k == 1:
                 continue
@@ -279,6 +310,16 @@ class C07(Prop, ScriptGen):
 
     def signature(self, c, io, mo):
         a = c['args']
+        if c['op'] == 'c07.seq':
+            # a history is a known finding only if every deviating step is one
+            ios, mos = io.split(' ;; '), mo.split(' ;; ')
+            sigs = set()
+            for k, (i1, m1) in enumerate(zip(ios, mos)):
+                st_ = a[7 * k:7 * k + 7]
+                one = Case(op='c07.verify' if st_[0] == 'v' else 'c07.eval', args=st_[1:6] + ['0'], tag='')
+                if not self.agree(one, i1, m1):
+                    sigs.add(self.signature(one, i1, m1))
+            return sigs.pop() if len(sigs) == 1 else None
         mask, idx = int(a[2]), int(a[4])
         if io == 'err:py:AssertionError' and c['op'] == 'c07.verify' and (mask & 4) and not (mask & 1):
             return 'D6-cleanstack-without-p2sh'
